@@ -98,6 +98,22 @@ func checkC06(w *SketchWorld, slot int) (fails []mc.Fail) {
 			fail("C06.encode-pure", "Encode changed the observable state\n  before: %s\n  after:  %s", before, after)
 			return
 		}
+		// the bytes belong to the caller: overwriting them and reusing the buffer for
+		// another encoding must not change what the sketch encodes next
+		{
+			scr := encodeOf(q, omit)
+			for x := range scr {
+				scr[x] = 0xff
+			}
+			scr = scr[:0]
+			if len(w.S) > 1 {
+				w.S[1-slot].Q().Encode(&scr, false)
+			}
+			if again := encodeOf(q, omit); !bytes.Equal(again, enc) {
+				fail("C06.append-only", "encoded again after the caller overwrote and reused the first buffer, the bytes differ\n  first: % x\n  again: % x", enc, again)
+				return
+			}
+		}
 		// append-only into a caller buffer with spare capacity
 		// (the spare capacity holds stale bytes, as in a recycled buffer)
 		junk := make([]byte, 3+len(enc)+16)
